@@ -1,6 +1,11 @@
-/-! line-protocol handlers (stub: filled in when the suite is built) -/
+/-! line-protocol handlers for corr:repro (C01): the oracle (byte equality of all outputs across
+variants) is evaluated by the harness; the model has nothing to add per case — its content is the
+order-independence theorems of Proofs/C01.lean. -/
 namespace Apko.Driver.Repro
 
-def handle (_args : List String) : Option String := none
+def handle (args : List String) : Option String :=
+  match args with
+  | ["x.repro", _] => some "-\t-\t-"
+  | _ => none
 
 end Apko.Driver.Repro
